@@ -149,7 +149,7 @@ def impl_single(case):
         else:
             pdk.compile(m)
     except Exception as ex:  # noqa
-        return {"refused": common.errstr(ex), "refused_type": type(ex).__name__}
+        return {"refused": common.errstr(ex), "refused_type": "RuntimeError" if isinstance(ex, RuntimeError) else type(ex).__name__, "refused_class": type(ex).__name__}
     out["of"] = describe_call(m.x.of)
     out["conn_ports"] = sorted(m.x.conns.keys())
     out["inst_name"] = m.x.name
@@ -476,7 +476,8 @@ def impl_hier(case):
                 pdk.compile(b.top)
     except Exception as ex:  # noqa
         out["refused"] = common.errstr(ex)
-        out["refused_type"] = type(ex).__name__
+        out["refused_type"] = "RuntimeError" if isinstance(ex, RuntimeError) else type(ex).__name__  # a subclass of RuntimeError is a RuntimeError
+        out["refused_class"] = type(ex).__name__
     s1 = snapshot(b.top)
     number_params([s0, s1])
     out["before"], out["after"] = s0, s1
